@@ -124,6 +124,8 @@ func genHistory(t *simrt.Tape, cfg histCfg) *History {
 			case 4:
 				kind = "unset-with-login" // LOGIN record carrying the unset session for a PID that also logs in via ssh
 				ses = "4294967295"
+			case 5:
+				kind = "nested" // a process inside an earlier ssh session gets a session of its own (su, sudo -i): LOGIN record with old-ses, no ssh login
 			}
 		}
 		s := &Session{Ses: ses, PID: pid, UID: 1000 + si, Kind: kind}
@@ -163,6 +165,18 @@ func genHistory(t *simrt.Tape, cfg histCfg) *History {
 		var e *KEvent
 		endIdx := plan[si] - 1 - nAfter[si]
 		switch {
+		case i == 0 && s.Kind == "nested":
+			parent := -1
+			for sj := 0; sj < si; sj++ {
+				if w.Sessions[sj].Kind == "ssh" {
+					parent = sj
+				}
+			}
+			if parent >= 0 {
+				e = k.LoginNested(s.Ses, w.Sessions[parent].Ses, s.PID, s.UID, w.Sessions[parent].UID)
+			} else {
+				e = k.Login(s.Ses, s.PID, s.UID)
+			}
 		case i == 0 && s.Kind != "orphan" && s.Kind != "orphan-with-login":
 			e = k.Login(s.Ses, s.PID, s.UID)
 		case s.Kind == "orphan-with-login" && i == 0:
@@ -379,7 +393,16 @@ func (h *History) checkC01(rc *RunCtx, evs []*OutEvent) {
 			}
 		}
 		if owner < 0 {
-			continue // no login with that PID reached the daemon: C04
+			// no login with that PID reached the daemon (that anything was emitted is C04's
+			// business); the event must still not carry the identity of some other login
+			for sj, id := range h.loginIdent {
+				if id == e.Identity() {
+					rc.Fail("C01", "wrong-identity", "UserAction #%d of audit session %s (opened by pid %d, for which no login arrived) carries the identity of the login of session s%d (pid %d)",
+						e.Seq, e.AuditID, s.Events[li].PID, sj, h.W.Sessions[sj].PID)
+					return
+				}
+			}
+			continue
 		}
 		if e.Identity() != h.loginIdent[owner] {
 			whose := "nobody's"
